@@ -9,8 +9,9 @@ OBLIGATIONS = [
     'C06.rc_linear_add', 'C06.rc_linear_smul', 'C06.lc_linear_add', 'C06.lc_linear_smul', 'C06.lc_rc', 'C06.rc_lc',
     'C06.pseudoscalar_sq', 'C06.dual_uses_inverse_of_I', 'C06.rc_vee', 'C06.vee_assoc', 'C06.vee_I_right', 'C06.vee_I_left',
     'C06.vee_grade', 'C06.vee_grade_zero', 'C06.rc_grade',
+    'C06.omt_table_entry', 'C06.complement_sign_lists', 'C06.complement_functions',
 ]
-PENDING = ['executable complement sign list = wsign (storage-level bridge for the complement functions): compared with the implementation, not proved']
+PENDING = ['that the storage order of the layout under test has the scalar first and the mirror property is proved for Model.shortlexOrder and compared with the implementation for the arrays it builds']
 RULE = ("default blade order; every signature in {+1,-1,0}^n for small n, random above; integer multivectors (dense/sparse/homogeneous); "
         "non-trivial = non-zero non-scalar operand; distinct = distinct (signature, operands, clause) text")
 ASSUMPTIONS = C01.ASSUMPTIONS
